@@ -409,6 +409,12 @@ pub enum Error
 		location: Location,
 		location_of_declaration: Location,
 	},
+	BuiltinArgumentTypeMismatch
+	{
+		argument_type: ValueType,
+		location: Location,
+		location_of_builtin: Location,
+	},
 	IndexTypeMismatch
 	{
 		argument_type: ValueType,
@@ -648,6 +654,7 @@ impl Error
 			Error::TooManyArguments { .. } => 511,
 			Error::ArgumentTypeMismatch { .. } => 512,
 			Error::ArgumentMissingAddress { .. } => 513,
+			Error::BuiltinArgumentTypeMismatch { .. } => 512,
 			Error::NotMutable { .. } => 530,
 			Error::CannotCopyArray { .. } => 531,
 			Error::CannotCopySlice { .. } => 532,
@@ -770,6 +777,7 @@ impl Error
 			Error::TooManyArguments { location, .. } => &location,
 			Error::ArgumentTypeMismatch { location, .. } => &location,
 			Error::ArgumentMissingAddress { location, .. } => &location,
+			Error::BuiltinArgumentTypeMismatch { location, .. } => &location,
 			Error::NotMutable { location, .. } => &location,
 			Error::CannotCopyArray { location, .. } => &location,
 			Error::CannotCopySlice { location, .. } => &location,
@@ -1988,6 +1996,31 @@ fn write<'a>(
 						parameter_name.fg(colors.secondary),
 						show_type(parameter_type, colors.secondary)
 					))
+					.with_color(SECONDARY),
+			),
+
+		Error::BuiltinArgumentTypeMismatch {
+			argument_type,
+			location,
+			location_of_builtin,
+		} => report
+			.with_message("Mismatched types")
+			.with_label(
+				location
+					.label()
+					.with_message(format!(
+						"Argument has type {}.",
+						show_type(argument_type, colors.primary)
+					))
+					.with_color(PRIMARY),
+			)
+			.with_label(
+				location_of_builtin
+					.label()
+					.with_message(
+						"This built-in function cannot take an argument of \
+						 that type.",
+					)
 					.with_color(SECONDARY),
 			),
 
